@@ -8,6 +8,7 @@ from .. import spaces
 from ..engine import seq_iter, seq_shards
 
 ID = "C03"
+LEAN = True  # cases are distinct by construction; see engine.Acc
 RULE = (
     "every token sequence over the 17-token splitter alphabet up to the length bound, every combination of "
     "<=k single-token edits of 6 realistic base documents, and layout families of well-formed entries "
